@@ -578,6 +578,23 @@ def limit_case(ctx, case):
             if type(rv) is bool and (rv is not v or rec.log != rec2.log):
                 ctx.violation({'clause': 'the verdict is the leaf script\'s own verdict', 'leaf': 'call-stack limit near the leaf depth'},
                               f'shape {shape} leaf {i} (depth {d}) call-stack limit {k}: verdict {v!r} recorder {rec.log}, reference {rv!r} {rec2.log}')
+            if k == d + 2:
+                # ... and the embedder's item-count limit around what the proof needs, with and without an extra witness item below it
+                for extra in (b'', P(b'\x00'), P(b'\x01') + P(b'\x02')):
+                    for mi in range(1, 2 * d + 7):
+                        cnt += 1
+                        rec3, rec4 = Recorder(), Recorder()
+                        try:
+                            v3 = F.run_auth_scripts([extra + unl, lock], {}, {CID: rec3}, stack_max_items=mi, stack_max_item_size=8192, callstack_limit=128)
+                        except BaseException as e:
+                            v3 = e
+                        rv3, _ = ref_auth([extra + unl, lock], limits=(mi, 8192, 128), contracts={CID: rec4})
+                        ctx.ran(2)
+                        ctx.state(('items', n, idx, i, len(extra), mi))
+                        if type(rv3) is bool and (rv3 is not v3 or rec3.log != rec4.log):
+                            ctx.violation({'clause': 'the verdict is the leaf script\'s own verdict', 'leaf': 'item-count limit near what the proof needs'},
+                                          f'shape {shape} leaf {i} (depth {d}) stack_max_items {mi}, {len(extra) // 3} extra witness items: verdict {v3!r} '
+                                          f'recorder {rec3.log}, reference {rv3!r} {rec4.log}')
             if k >= d + 1 and (v is not own_verdict(i) or rec.log != [bytes([i])]):
                 ctx.violation({'clause': 'the verdict is the leaf script\'s own verdict', 'leaf': 'call-stack limit above the leaf depth'},
                               f'shape {shape} leaf {i} (depth {d}) call-stack limit {k}: verdict {v!r} recorder {rec.log}')
@@ -701,7 +718,7 @@ def blocks(tier, seed):
                                                     for m in ('left', 'right', 'twice', 'prioritized')], reuse_case,
               'every shape with 2..%d leaves x every sub-position reused x {left, right, reused twice, prioritized(tree=)}' % (5 if q else 6), nshards=32),
         Block('call_stack_limit_near_leaf_depth', [(n, idx) for n in range(2, (6 if q else 7) + 1) for idx in range(catalan(n - 1))], limit_case,
-              'every shape with 2..%d leaves x every leaf x call-stack limit 0..depth+2, against the reference interpreter' % (6 if q else 7), nshards=32),
+              'every shape with 2..%d leaves x every leaf x call-stack limit 0..depth+2, and x stack_max_items 1..2*depth+6 x 0..2 extra witness items, against the reference interpreter' % (6 if q else 7), nshards=32),
         Block('builders', list(range(1, bmax + 1)), builder_case,
               'prioritized / balanced tree and merklized-script builders for every leaf count 1..%d, every leaf incl. fillers' % bmax,
               nshards=bmax),
